@@ -70,3 +70,131 @@ package dnsmsg
 
 // errors.As finds a BadECSError value (it is assignable to the target).
 //@ axiom bad-ecs-error-is-found-by-errors-as: forall e error :: istype(e, BadECSError) ==> errAs(e, ptrtag(BadECSError))
+
+// ---------------------------------------------------------------------------
+// C02: a blocked answer has the shape of the constructor's blocking mode, the
+// constructor's TTL, and is built from scratch (no upstream records).
+
+//@ immutable Constructor.*, BlockingModeCustomIP.*
+
+// A new response: reply header for the request, empty sections.
+//@ func (*Constructor).NewResp
+//@   requires req != nil
+//@   modifies nothing
+//@   ensures resp != nil && fresh(resp) && resp.Rcode == 0 && resp.Response && resp.Id == req.Id && resp.Answer == nil && resp.Ns == nil && resp.Extra == nil
+//@ func (*Constructor).newSOARecords
+//@   modifies nothing
+// AddEDE appends an OPT record with an extended error (or an option to the
+// response's OPT) when the request has EDNS; nothing else changes.
+//@ func (*Constructor).AddEDE
+//@   modifies resp.Extra, dns.OPT.Option, allelems(dns.EDNS0)
+//@   ensures resp.Rcode == old(resp.Rcode) && resp.Answer == old(resp.Answer)
+//@ pred knownMode(c *Constructor) = (isptr(c.blockingMode, BlockingModeCustomIP) || isptr(c.blockingMode, BlockingModeNullIP) ||
+//@        isptr(c.blockingMode, BlockingModeNXDOMAIN) || isptr(c.blockingMode, BlockingModeREFUSED)) &&
+//@        (isptr(c.blockingMode, BlockingModeCustomIP) ==> asptr(c.blockingMode, BlockingModeCustomIP) != nil)
+//@ func newA
+//@   modifies nothing
+//@   ensures rr != nil && fresh(rr)
+//@ func newAAAA
+//@   modifies nothing
+//@   ensures rr != nil && fresh(rr)
+
+// A constructor that passed validation: the TTL is not negative.
+//@ pred CV(c *Constructor) = c != nil && c.fltRespTTL >= 0
+//@ pred ttlOf(c *Constructor) = wrap(int(real(c.fltRespTTL) / real(1000000000)), uint32)
+
+//@ func (*Constructor).NewAnswerA
+//@   property C02
+//@   requires CV(c)
+//@   modifies nothing
+//@   ensures only-ipv4-or-the-null-address: (err == nil) == (ip == zero(netip.Addr) || addrIs4(ip))
+//@   ensures err == nil ==> rr != nil && fresh(rr) && rr.Hdr.Ttl == ttlOf(c) && rr.Hdr.Rrtype == 1 && rr.Hdr.Name == fqdn
+//@   ensures err != nil ==> rr == nil
+//@ func (*Constructor).NewAnswerAAAA
+//@   property C02
+//@   requires CV(c)
+//@   modifies nothing
+//@   ensures only-ipv6-or-the-null-address: (err == nil) == (ip == zero(netip.Addr) || addrIs6(ip))
+//@   ensures err == nil ==> rr != nil && fresh(rr) && rr.Hdr.Ttl == ttlOf(c) && rr.Hdr.Rrtype == 28 && rr.Hdr.Name == fqdn
+//@   ensures err != nil ==> rr == nil
+
+//@ pred allV4(ips []netip.Addr) = forall i int :: 0 <= i && i < len(ips) ==> ips[i] == zero(netip.Addr) || addrIs4(ips[i])
+//@ pred allV6(ips []netip.Addr) = forall i int :: 0 <= i && i < len(ips) ==> ips[i] == zero(netip.Addr) || addrIs6(ips[i])
+
+//@ func (*Constructor).newMsgA
+//@   property C02
+//@   requires CV(c) && req != nil && len(req.Question) >= 1
+//@   modifies nothing
+//@   ensures (err == nil) == allV4(ips)
+//@   ensures one-record-per-address-with-the-profiles-ttl: err == nil ==> msg != nil && fresh(msg) && msg.Rcode == 0 && len(msg.Answer) == len(ips) &&
+//@             (forall k int :: 0 <= k && k < len(msg.Answer) ==> isptr(msg.Answer[k], dns.A) && asptr(msg.Answer[k], dns.A) != nil && asptr(msg.Answer[k], dns.A).Hdr.Ttl == ttlOf(c))
+//@   ensures err != nil ==> msg == nil
+//@   loop 1 invariant -1 <= #i && #i < len(ips) && msg != nil && fresh(msg) && msg.Rcode == 0 && len(msg.Answer) == #i + 1 && (arr(msg.Answer) == 0 || fresh(msg.Answer))
+//@   loop 1 invariant forall k int :: 0 <= k && k <= #i ==> ips[k] == zero(netip.Addr) || addrIs4(ips[k])
+//@   loop 1 invariant forall k int :: 0 <= k && k < len(msg.Answer) ==> isptr(msg.Answer[k], dns.A) && asptr(msg.Answer[k], dns.A) != nil && fresh(asptr(msg.Answer[k], dns.A)) && asptr(msg.Answer[k], dns.A).Hdr.Ttl == ttlOf(c)
+//@ func (*Constructor).newMsgAAAA
+//@   property C02
+//@   requires CV(c) && req != nil && len(req.Question) >= 1
+//@   modifies nothing
+//@   ensures (err == nil) == allV6(ips)
+//@   ensures one-record-per-address-with-the-profiles-ttl: err == nil ==> msg != nil && fresh(msg) && msg.Rcode == 0 && len(msg.Answer) == len(ips) &&
+//@             (forall k int :: 0 <= k && k < len(msg.Answer) ==> isptr(msg.Answer[k], dns.AAAA) && asptr(msg.Answer[k], dns.AAAA) != nil && asptr(msg.Answer[k], dns.AAAA).Hdr.Ttl == ttlOf(c))
+//@   ensures err != nil ==> msg == nil
+//@   loop 1 invariant -1 <= #i && #i < len(ips) && msg != nil && fresh(msg) && msg.Rcode == 0 && len(msg.Answer) == #i + 1 && (arr(msg.Answer) == 0 || fresh(msg.Answer))
+//@   loop 1 invariant forall k int :: 0 <= k && k <= #i ==> ips[k] == zero(netip.Addr) || addrIs6(ips[k])
+//@   loop 1 invariant forall k int :: 0 <= k && k < len(msg.Answer) ==> isptr(msg.Answer[k], dns.AAAA) && asptr(msg.Answer[k], dns.AAAA) != nil && fresh(asptr(msg.Answer[k], dns.AAAA)) && asptr(msg.Answer[k], dns.AAAA).Hdr.Ttl == ttlOf(c)
+
+//@ func (*Constructor).NewBlockedRespIP
+//@   property C02
+//@   requires CV(c) && req != nil && len(req.Question) >= 1
+//@   modifies nothing
+//@   ensures answered-with-exactly-the-given-addresses: (err == nil) == ((req.Question[0].Qtype == 1 && allV4(ips)) || (req.Question[0].Qtype == 28 && allV6(ips)))
+//@   ensures err == nil ==> msg != nil && fresh(msg) && msg.Rcode == 0 && len(msg.Answer) == len(ips)
+//@   ensures err != nil ==> msg == nil
+
+// blockedBy[m] is the constructor that built blocked response m.
+//@ ghost blockedBy map[*dns.Msg]*Constructor
+//@ func (*Constructor).NewBlockedRespRCode
+//@   property C02
+//@   requires CV(c) && req != nil
+//@   modifies blockedBy, dns.OPT.Option, allelems(dns.EDNS0)
+//@   ghostset blockedBy[resp] = c
+//@   ensures resp != nil && fresh(resp) && resp.Rcode == rc && len(resp.Answer) == 0 && blockedBy[resp] == c
+//@   ensures forall m *dns.Msg :: m != resp ==> blockedBy[m] == old(blockedBy[m])
+
+//@ func (*Constructor).NewBlockedNullIPResp
+//@   property C02
+//@   requires CV(c) && req != nil && len(req.Question) >= 1
+//@   modifies dns.OPT.Option, allelems(dns.EDNS0)
+//@   ensures null-address-for-address-questions-only: (err == nil) == (req.Question[0].Qtype == 1 || req.Question[0].Qtype == 28)
+//@   ensures err == nil ==> resp != nil && fresh(resp) && resp.Rcode == 0 && len(resp.Answer) == 1
+//@   ensures err != nil ==> resp == nil
+
+//@ func (*Constructor).newBlockedCustomIPResp
+//@   property C02
+//@   requires CV(c) && req != nil && len(req.Question) >= 1 && m != nil
+//@   modifies blockedBy, dns.OPT.Option, allelems(dns.EDNS0)
+//@   ensures custom-addresses-of-the-questions-family: req.Question[0].Qtype == 1 && len(m.IPv4) > 0 ==> (err == nil) == allV4(m.IPv4) && (err == nil ==> len(msg.Answer) == len(m.IPv4))
+//@   ensures req.Question[0].Qtype == 28 && len(m.IPv6) > 0 ==> (err == nil) == allV6(m.IPv6) && (err == nil ==> len(msg.Answer) == len(m.IPv6))
+//@   ensures forall x *dns.Msg :: x != msg ==> blockedBy[x] == old(blockedBy[x])
+//@   ensures no-data-otherwise: !(req.Question[0].Qtype == 1 && len(m.IPv4) > 0) && !(req.Question[0].Qtype == 28 && len(m.IPv6) > 0) ==> err == nil && msg.Rcode == 0 && len(msg.Answer) == 0
+//@   ensures err == nil ==> msg != nil && fresh(msg) && msg.Rcode == 0
+//@   ensures err != nil ==> msg == nil
+
+// The five blocking modes.
+//@ func (*Constructor).NewBlockedResp
+//@   property C02
+//@   requires CV(c) && req != nil && len(req.Question) >= 1
+//@   requires knownMode(c)
+//@   modifies blockedBy, dns.OPT.Option, allelems(dns.EDNS0)
+//@   ghostset blockedBy[msg] = c
+//@   ensures err == nil ==> blockedBy[msg] == c
+//@   ensures err != nil ==> msg == nil
+//@   ensures forall m *dns.Msg :: m != msg ==> blockedBy[m] == old(blockedBy[m])
+//@   ensures nxdomain-mode: isptr(c.blockingMode, BlockingModeNXDOMAIN) ==> err == nil && msg.Rcode == 3 && len(msg.Answer) == 0
+//@   ensures refused-mode: isptr(c.blockingMode, BlockingModeREFUSED) ==> err == nil && msg.Rcode == 5 && len(msg.Answer) == 0
+//@   ensures null-ip-mode: isptr(c.blockingMode, BlockingModeNullIP) ==> err == nil && msg.Rcode == 0 &&
+//@             len(msg.Answer) == (req.Question[0].Qtype == 1 || req.Question[0].Qtype == 28 ? 1 : 0)
+//@   ensures custom-ip-mode: isptr(c.blockingMode, BlockingModeCustomIP) && req.Question[0].Qtype == 1 && len(asptr(c.blockingMode, BlockingModeCustomIP).IPv4) > 0 &&
+//@             allV4(asptr(c.blockingMode, BlockingModeCustomIP).IPv4) ==> err == nil && msg.Rcode == 0 && len(msg.Answer) == len(asptr(c.blockingMode, BlockingModeCustomIP).IPv4)
+//@   ensures err == nil ==> msg != nil && fresh(msg)
